@@ -44,6 +44,14 @@ def draw_case(data, tier, converge=False):
     if converge:
         case['project'] = data.draw(st.booleans())
         case['method'] = data.draw(st.sampled_from(['1site', '2site']))
+        # penalty of the projected run: the default (100) or an explicit (penalty, state) pair with a penalty of 20 spectral widths; the energy
+        # scale of H is sometimes 300, so that gaps exceed the default penalty and only the explicit one is large enough
+        case['penalty'] = data.draw(st.sampled_from(['default', 'explicit', 'explicit']))
+        sc = data.draw(st.sampled_from([1, 1, 300])) if case['penalty'] == 'explicit' else 1
+        if sc != 1:
+            mul = lambda a: {'re': a['re'] * sc, 'im': a['im'] * sc} if isinstance(a, dict) else a * sc
+            case['terms'] = [dict(t, amp=mul(t['amp'])) for t in case['terms']]
+        case['ampscale'] = sc
         return case
     case['D'] = data.draw(st.sampled_from([2, 3, 4, 6, 8]))
     nsw = data.draw(st.integers(1, 5))
@@ -223,7 +231,12 @@ def execute_converge(case):
             case2 = dict(case, seed=case['seed'] + 1)
             phi = start_state(case2, full=True)
             if phi is not None:
-                out2 = mps.dmrg_(phi, Hform, project=[psi], **opts)
+                if case.get('penalty', 'default') == 'explicit':
+                    project = [(20.0 * float(ev[-1] - ev[0]) + 1.0, psi)]
+                    labels.append('explicit_penalty' + (':energy_scale_300' if case.get('ampscale', 1) != 1 else ''))
+                else:
+                    project = [psi]
+                out2 = mps.dmrg_(phi, Hform, project=project, **opts)
                 w = G.mps_dense(phi, sp)
                 ov = abs(np.vdot(v, w))
                 E2 = float(np.real(np.vdot(w, Hd @ w)))
